@@ -183,6 +183,15 @@ func runC05(c *Ctx) {
 		gc, ac := randFullConfig(r)
 		text, class := tg.hostile(idx, r, ac.Dialect, ac)
 		cs := map[string]interface{}{"config": gc, "text": describeText(text), "class": class, "bytes": len(text)}
+		// EQU values are spliced in as text: a definition that mentions earlier ones several times grows like a
+		// product (known finding C05:equ-text-expansion).  Inputs whose EQU text would exceed twelve million tokens are not
+		// run at all; smaller ones that trip the allocation cap are reported under that finding.
+		equTokens := equTextExpansion(text)
+		if equTokens > 1.2e7 {
+			c.Inc("skipped_equ_text_expansion_above_12e6_tokens")
+			c.res.Evaluations--
+			return
+		}
 		var wd g.WarriorData
 		var err error
 		var pm string
@@ -193,6 +202,10 @@ func runC05(c *Ctx) {
 		alloc := heapAllocated() - a0
 		c.Max("max_alloc_mib_per_call", int64(alloc>>20))
 		if alloc > allocCapBase+uint64(len(text))*4096 {
+			if equTokens > 100000 {
+				c.KnownHit("C05:equ-text-expansion:allocation-cap", fmt.Sprintf("EQU definitions that mention earlier ones several times expand as text to %.0f tokens: one call on %d bytes of input allocated %d MiB", equTokens, len(text), alloc>>20), cs)
+				return
+			}
 			c.Violate("C05:allocation-cap", fmt.Sprintf("one CompileWarrior call on %d bytes of input allocated %d MiB (cap: 256 MiB + 4 KiB per input byte)", len(text), alloc>>20), cs)
 			return
 		}
@@ -517,4 +530,62 @@ func runC06(c *Ctx) {
 			c.Sample(cs)
 		}
 	})
+}
+
+
+// equTextExpansion returns the size (in tokens) of the largest EQU value of the text after textual substitution of
+// the EQUs it mentions (the sum of the sizes of all values when they feed one another), +Inf for a cycle.
+func equTextExpansion(text string) float64 {
+	defs := map[string][]string{}
+	for _, l := range strings.Split(text, "\n") {
+		if k := strings.IndexByte(l, ';'); k >= 0 {
+			l = l[:k]
+		}
+		fs := strings.FieldsFunc(l, func(r rune) bool {
+			return !(r >= '0' && r <= '9' || r >= 'a' && r <= 'z' || r >= 'A' && r <= 'Z' || r == '_' || r == '.')
+		})
+		for k, f := range fs {
+			if strings.EqualFold(f, "equ") {
+				for _, name := range fs[:k] {
+					defs[name] = fs[k+1:]
+				}
+				break
+			}
+		}
+	}
+	if len(defs) == 0 {
+		return 0
+	}
+	memo := map[string]float64{}
+	var size func(name string, depth int) float64
+	size = func(name string, depth int) float64 {
+		if v, ok := memo[name]; ok {
+			return v
+		}
+		if depth > 5000 {
+			return 1e18
+		}
+		memo[name] = 1e18 // a cycle
+		n := 0.0
+		for _, f := range defs[name] {
+			if _, ok := defs[f]; ok {
+				n += size(f, depth+1)
+			} else {
+				n += 2 // the token and the operator next to it
+			}
+			if n > 1e18 {
+				n = 1e18
+			}
+		}
+		memo[name] = n
+		return n
+	}
+	total := 0.0
+	for name := range defs {
+		total += size(name, 0)
+		if total > 1e18 {
+			return 1e18
+		}
+	}
+	return total
 }
